@@ -1,3 +1,6 @@
+pub mod model {
+use vstd::prelude::*;
+use super::*;
 // ---------------------------------------------------------------------------------------------
 // spec functions written from the statements of C01/C02/C03/C04 (not from the code)
 // ---------------------------------------------------------------------------------------------
@@ -157,7 +160,30 @@ pub broadcast proof fn lemma_one_kid<'a>(s0: Seq<Seq<Node<'a>>>, s4: Seq<Seq<Nod
     ensures s4.last() =~= seq![st_last(s4)],
 {}
 
+pub proof fn lemma_count_one_more_x<'a>(a: Seq<Seq<Node<'a>>>, b: Seq<Seq<Node<'a>>>, x: Status)
+    requires st_one_more(a, b),
+    ensures count(kid_statuses(b.last()), x) == count(kid_statuses(a.last()), x) + if rec_status(st_last(b).rec) == x { 1nat } else { 0nat },
+{
+    assert(b.last() == a.last().push(st_last(b)));
+    assert(kid_statuses(b.last()) =~= kid_statuses(a.last()).push(rec_status(st_last(b).rec)));
+    lemma_count_push(kid_statuses(a.last()), rec_status(st_last(b).rec), x);
+}
+
+pub broadcast proof fn lemma_count_one_more<'a>(a: Seq<Seq<Node<'a>>>, b: Seq<Seq<Node<'a>>>)
+    requires #[trigger] st_one_more(a, b),
+    ensures
+        count(kid_statuses(b.last()), Status::FAIL) == count(kid_statuses(a.last()), Status::FAIL) + if rec_status(st_last(b).rec) == Status::FAIL { 1nat } else { 0nat },
+        count(kid_statuses(b.last()), Status::PASS) == count(kid_statuses(a.last()), Status::PASS) + if rec_status(st_last(b).rec) == Status::PASS { 1nat } else { 0nat },
+        count(kid_statuses(b.last()), Status::SKIP) == count(kid_statuses(a.last()), Status::SKIP) + if rec_status(st_last(b).rec) == Status::SKIP { 1nat } else { 0nat },
+{
+    lemma_count_one_more_x(a, b, Status::FAIL);
+    lemma_count_one_more_x(a, b, Status::PASS);
+    lemma_count_one_more_x(a, b, Status::SKIP);
+}
+
 pub broadcast group group_stack {
+    lemma_count_has,
+    lemma_count_one_more,
     lemma_new_from_open,
     lemma_guarded_body,
     lemma_one_kid,
@@ -200,9 +226,9 @@ pub open spec fn count(s: Seq<Status>, x: Status) -> nat
     if s.len() == 0 { 0 } else { count(s.drop_last(), x) + if s.last() == x { 1nat } else { 0nat } }
 }
 
-pub proof fn lemma_count_has(s: Seq<Status>, x: Status)
+pub broadcast proof fn lemma_count_has(s: Seq<Status>, x: Status)
     ensures
-        count(s, x) > 0 <==> has(s, x),
+        #[trigger] count(s, x) > 0 <==> has(s, x),
         count(s, x) <= s.len(),
     decreases s.len()
 {
@@ -226,4 +252,6 @@ pub proof fn lemma_count_push(s: Seq<Status>, y: Status, x: Status)
 {
     assert(s.push(y).drop_last() =~= s);
 }
-
+} // mod model
+pub use model::*;
+broadcast use model::group_stack;
